@@ -155,6 +155,12 @@ class SeqOf(TypeSpec):
 	def make(self, name, st, eng):
 		v = TSeq(self.elem.desc).fresh(name)
 		st.assume(v.length >= 0)
+		ed = self.elem.desc
+		if isinstance(ed, (TSeq, TArr)):
+			# type invariant of nested sequences: every element has a non-negative length
+			j = z3.Int(fresh_name('j'))
+			e = ed.wrap(z3.Select(v.arr, j))
+			st.assume(z3.ForAll([j], e.length >= 0))
 		if self.ref:
 			r = Ref(self.kind)
 			st.heap[r.addr] = v
